@@ -61,7 +61,22 @@ S3 = ["""module scc { yang-version 1.1; namespace "urn:scc"; prefix c;
   list tl { key k; leaf k { type int32; } leaf v { type string; } }
 }"""]
 
-SCHEMAS = {"S1": S1, "S2": S2, "S3": S3}
+# law mode only (the model has single-key lists): lists with two and three keys of different types, system- and user-ordered,
+# nested and top-level; instances are created through key predicates in any order (lyd_new_list2 / lyd_new_path)
+S4 = ["""module sdd { yang-version 1.1; namespace "urn:sdd"; prefix d;
+  container c {
+    leaf a { type string; }
+    list m2 { key "a b"; leaf a { type string; } leaf b { type int32; } leaf v { type string; } leaf w { type string; }
+      list in { key "x y"; leaf x { type uint8; } leaf y { type string; } leaf v { type string; } } }
+    leaf-list sll { type int32; }
+    list mu { key "a b"; ordered-by user; leaf a { type int32; } leaf b { type string; } leaf v { type string; } }
+    list m3 { key "p q r"; leaf p { type uint8; } leaf q { type string; } leaf r { type int32; } leaf v { type string; } }
+    leaf e { type string; }
+  }
+  list t2 { key "a b"; leaf a { type int32; } leaf b { type string; } leaf v { type string; } }
+}"""]
+
+SCHEMAS = {"S1": S1, "S2": S2, "S3": S3, "S4": S4}
 
 POOL = {"i32": ["-3", "0", "1", "2", "3", "4", "5", "7", "9", "10", "200"], "u8": ["0", "1", "2", "3", "4", "5", "7", "9", "10", "200"],
         "str": ["", "a", "B", "aa", "b", "10", "9", "\xc3\xa9"], "-": [""], "oth": [""]}
